@@ -50,6 +50,10 @@ func runReplay(t *testing.T, res *report.Result, path string) {
 	}
 	rp := f.Replay
 	envs := append(append(cat.Envelopes(), cat.ExtraEnvelopes()...), cat.LimitEnvelopes()...)
+	if rp.Property == "C14" {
+		cat.RegisterSecondChannelBackend()
+		envs = append(envs, cat.BackendEnvelopes()...)
+	}
 	switch rp.Property {
 	case "C14":
 		h := &c14{res: res, verbose: true}
@@ -75,7 +79,7 @@ func runReplay(t *testing.T, res *report.Result, path string) {
 				}
 			}
 		} else if rp.Kind == "value" {
-			vals := append(cat.Values(), cat.LimitValues()...)
+			vals := append(append(cat.Values(), cat.LimitValues()...), cat.BackendValues()...)
 			for i := range vals {
 				if vals[i].Name == rp.Entry {
 					h.checkValue(vals, i)
